@@ -1785,32 +1785,43 @@ impl<S: Storage> Validator<S> {
             }
 
             if let Some(digest) = root_inventory.digest_for_content_path(path) {
-                let mut expectations = HashMap::new();
-                expectations.insert(root_algorithm, digest);
+                // The same algorithm may have several expectations: the manifest, the fixity
+                // block, and the manifests of prior inventories
+                let mut expectations = Vec::new();
+                expectations.push((root_algorithm, digest));
 
                 if let Some(fixity) = &mut fixity {
                     if let Some(fixity_expectations) = fixity.get(path) {
                         for (algorithm, alt_digest) in fixity_expectations {
-                            expectations.insert(*algorithm, alt_digest);
+                            expectations.push((*algorithm, alt_digest));
                         }
                     }
                 }
                 for (algorithm, inventory) in inventories {
                     if let Some(alt_digest) = inventory.digest_for_content_path(path) {
-                        expectations.insert(*algorithm, alt_digest);
+                        expectations.push((*algorithm, alt_digest));
                     }
                 }
 
-                let algorithms: Vec<DigestAlgorithm> = expectations.keys().copied().collect();
+                let mut algorithms: Vec<DigestAlgorithm> = Vec::new();
+                for (algorithm, _) in &expectations {
+                    if !algorithms.contains(algorithm) {
+                        algorithms.push(*algorithm);
+                    }
+                }
                 let mut digester = MultiDigestWriter::new(&algorithms, std::io::sink());
 
                 let full_path = paths::join(object_root, path.as_str());
 
                 self.storage.read(&full_path, &mut digester)?;
 
-                for (algorithm, actual) in digester.finalize_hex() {
-                    let expected = expectations.get(&algorithm).unwrap();
-                    if actual != ***expected {
+                let actuals = digester.finalize_hex();
+                let mut reported: Vec<(DigestAlgorithm, &HexDigest)> = Vec::new();
+
+                for (algorithm, expected) in expectations {
+                    let actual = actuals.get(&algorithm).unwrap();
+                    if *actual != **expected && !reported.contains(&(algorithm, &**expected)) {
+                        reported.push((algorithm, &**expected));
                         // TODO technically, one of these digests could be in the fixity block...
                         let code = if algorithm == DigestAlgorithm::Sha512
                             || algorithm == DigestAlgorithm::Sha256
